@@ -13,3 +13,12 @@ package aa
 //@   opt prop=C02
 //@   trusted
 //@   opt storefirst=pkg/aa.inHeader
+
+// DefaultTunables hands out a preamble of its own: the file object and every rule in it
+// are newly allocated by the call (none existed before it), so that Resolve, which edits
+// variables in place, cannot carry the appends of one profile into the next.
+//@ func DefaultTunables
+//@   opt prop=C02
+//@   assigns nothing
+//@   ensures fresh(result)
+//@   ensures forall(k, 0, len(result.Preamble), fresh(result.Preamble[k]))
